@@ -13,11 +13,18 @@
 //   "<id> skip stage=<build|parse0|compile0> msg=..."        the origin itself is not a model: nothing to check
 //   "<id> fail stage=<save|parse1|compile1> msg=... xml=<hex>"  saved text does not load: property violated
 //   "<id> diff nfield=<k> fields=<f:count:first_index:a:b,...> maxdev=<x> xml=<hex>"
-//   "<id> ok arrays=<n> elems=<n> maxdev=<x> bytes=<len(x1)> idem=<0|1> sizes=<nbody,njnt,ngeom,...>"
+//   "<id> ok arrays=<n> elems=<n> maxdev=<x> bytes=<len(x1)> idem=<0|1> iquat_equiv=<n> bvh_equiv=<n> sizes=<nbody,njnt,ngeom,...>"
+//        iquat_equiv > 0 (tolerance mode only): body_iquat / bvh_aabb differed but all n bodies' full inertia tensors
+//        agree -- another representative of the same principal-axes frame, not reported as a difference
+//        bvh_equiv > 0 (tolerance mode only): bvh_* arrays differed by a permutation of the nodes (same leaf multiset)
 //   defaults                 -> "defaults <struct>.<attr>:<offset>:<kind>:<len>:<ndecl>:<unset>:<declared,..>:<actual,..>;..."
 //                            every entry of src/xml/generated/mjcf_default_table.inc next to the value found at that offset
 //                            in a freshly constructed spec object (what test/xml/schema_defaults_test.cc compares)
+//   inert <id> <hex>         origin as for xml; prints the saved text and the bodies' masses before / after the reload:
+//                            "<id> saved xml=<hex> m0=<body name>:<bits of body_mass>,... m1=<...>|fail"  (tie of the
+//                            inertia-source model, Model/XmlInertial.lean)
 // idem: saving spec1 again gives the same text as x1 (reported, not part of the property).
+#include <algorithm>
 #include <cmath>
 #include <cstdio>
 #include <cstdlib>
@@ -44,6 +51,7 @@ struct Diff {
   std::string a, b;
 };
 static std::vector<Diff> g_diffs;
+static std::vector<std::pair<std::string, double>> g_fielddev;   // per compared field: largest normalised deviation
 
 static std::string hexenc(const std::string& s) {
   static const char* d = "0123456789abcdef";
@@ -91,6 +99,7 @@ static void cmp(const char* name, const T* a, const T* b, long n) {
   if (n <= 0) return;
   g_elems += n;
   long count = 0, first = -1;
+  double fdev = 0;
   for (long i = 0; i < n; i++) {
     bool same;
     if (memcmp(&a[i], &b[i], sizeof(T)) == 0) {
@@ -102,6 +111,7 @@ static void cmp(const char* name, const T* a, const T* b, long n) {
       } else {
         double dev = std::fabs(x - y) / (1 + std::fmax(std::fabs(x), std::fabs(y)));
         if (dev > g_maxdev) g_maxdev = dev;
+        if (dev > fdev) fdev = dev;
         same = g_tol > 0 ? dev <= g_tol : (x == y);   // exact mode: numeric equality (+0 == -0)
       }
     } else {
@@ -113,10 +123,90 @@ static void cmp(const char* name, const T* a, const T* b, long n) {
     }
   }
   if (count) g_diffs.push_back({name, count, first, show(a[first]), show(b[first])});
+  if (fdev > 0) g_fielddev.push_back({name, fdev});
+}
+
+// full inertia tensor R(q) diag(I) R(q)^T of body i in the body frame
+static void body_tensor(const mjModel* m, int i, double T[9]) {
+  double R[9], D[9] = {0}, RD[9];
+  mju_quat2Mat(R, m->body_iquat + 4 * i);
+  D[0] = m->body_inertia[3 * i];
+  D[4] = m->body_inertia[3 * i + 1];
+  D[8] = m->body_inertia[3 * i + 2];
+  mju_mulMatMat(RD, R, D, 3, 3, 3);
+  mju_mulMatMatT(T, RD, R, 3, 3, 3);
+}
+
+static int g_iquat_equiv = 0;
+
+// Tolerance mode only (saved with fewer digits than the doubles carry): the principal-axes frame of a body is unique
+// only up to the symmetries of its inertia ellipsoid, and the eigen-solver may return another representative when its
+// input is perturbed in the 6th digit.  If body_iquat differs but every body's FULL inertia tensor agrees within the
+// tolerance, the difference is one of representation: body_iquat, and bvh_aabb (boxes expressed in that frame), are
+// not reported.  Everything else stays reported; in exact mode (precision 17) nothing is filtered.
+static void filter_equivalent_iquat(const mjModel* m0, const mjModel* m1) {
+  g_iquat_equiv = 0;
+  if (g_tol <= 0 || m0->nbody != m1->nbody) return;
+  bool has = false;
+  for (const Diff& d : g_diffs) has = has || d.field == "body_iquat";
+  if (!has) return;
+  for (const Diff& d : g_diffs) {
+    if (d.field == "body_inertia" || d.field == "body_ipos" || d.field == "body_mass") return;
+  }
+  int n = 0;
+  for (int i = 0; i < m0->nbody; i++) {
+    double T0[9], T1[9], scale = 1;
+    body_tensor(m0, i, T0);
+    body_tensor(m1, i, T1);
+    for (int k = 0; k < 9; k++) scale = std::fmax(scale, std::fabs(T0[k]));
+    for (int k = 0; k < 9; k++) {
+      if (!(std::fabs(T0[k] - T1[k]) <= 10 * g_tol * scale)) return;
+    }
+    n++;
+  }
+  std::vector<Diff> kept;
+  for (const Diff& d : g_diffs) {
+    if (d.field != "body_iquat" && d.field != "bvh_aabb") kept.push_back(d);
+  }
+  g_diffs.swap(kept);
+  g_iquat_equiv = n;
+  g_maxdev = 0;
+  for (const auto& fd : g_fielddev) {
+    if (fd.first != "body_iquat" && fd.first != "bvh_aabb" && fd.second > g_maxdev) g_maxdev = fd.second;
+  }
+}
+
+static int g_bvh_equiv = 0;
+
+// Tolerance mode only: the BVH of a body is built by sorting box centres along the widest axis of the (inertial-frame)
+// bounding box; a perturbation in the 6th digit can swap two nearly equal keys, which permutes the nodes without changing
+// the set of leaves.  If the trees have the same number of nodes and the same multiset of leaf ids, differences confined to
+// the bvh_* arrays are not reported.  In exact mode nothing is filtered.
+static void filter_equivalent_bvh(const mjModel* m0, const mjModel* m1) {
+  g_bvh_equiv = 0;
+  if (g_tol <= 0 || m0->nbvh != m1->nbvh) return;
+  bool has = false;
+  for (const Diff& d : g_diffs) has = has || d.field.rfind("bvh_", 0) == 0;
+  if (!has) return;
+  std::vector<int> a(m0->bvh_nodeid, m0->bvh_nodeid + m0->nbvh), b(m1->bvh_nodeid, m1->bvh_nodeid + m1->nbvh);
+  std::sort(a.begin(), a.end());
+  std::sort(b.begin(), b.end());
+  if (a != b) return;
+  std::vector<Diff> kept;
+  for (const Diff& d : g_diffs) {
+    if (d.field.rfind("bvh_", 0) != 0) kept.push_back(d);
+  }
+  g_bvh_equiv = (int)(g_diffs.size() - kept.size());
+  g_diffs.swap(kept);
+  g_maxdev = 0;
+  for (const auto& fd : g_fielddev) {
+    if (fd.first.rfind("bvh_", 0) != 0 && !(g_iquat_equiv && fd.first == "body_iquat") && fd.second > g_maxdev) g_maxdev = fd.second;
+  }
 }
 
 static void compare_models(const mjModel* m0, const mjModel* m1) {
   g_diffs.clear();
+  g_fielddev.clear();
   g_maxdev = 0;
   g_elems = 0;
   g_arrays = 0;
@@ -183,6 +273,8 @@ static void compare_models(const mjModel* m0, const mjModel* m1) {
 #undef MJ_M
 #define MJ_M(n) n
   }
+  filter_equivalent_iquat(m0, m1);
+  filter_equivalent_bvh(m0, m1);
 }
 
 static std::string save(mjSpec* s, char* err, int nerr) {
@@ -231,8 +323,8 @@ static void roundtrip(const char* id, mjSpec* s0, mjModel* m0, const mjVFS* vfs)
            hexenc(x1).c_str());
   } else {
     std::string x2 = save(s1, err, sizeof err);
-    printf("%s ok arrays=%d elems=%ld maxdev=%.3g bytes=%zu idem=%d sizes=%d,%d,%d,%d,%d,%d,%d,%d,%d\n", id, g_arrays,
-           g_elems, g_maxdev, x1.size(), (int)(x2 == x1), (int)m0->nbody, (int)m0->njnt, (int)m0->ngeom,
+    printf("%s ok arrays=%d elems=%ld maxdev=%.3g bytes=%zu idem=%d iquat_equiv=%d bvh_equiv=%d sizes=%d,%d,%d,%d,%d,%d,%d,%d,%d\n", id,
+           g_arrays, g_elems, g_maxdev, x1.size(), (int)(x2 == x1), g_iquat_equiv, g_bvh_equiv, (int)m0->nbody, (int)m0->njnt, (int)m0->ngeom,
            (int)m0->nsite, (int)m0->nu, (int)m0->nsensor, (int)m0->ntendon, (int)m0->neq, (int)m0->nkey);
   }
   mj_deleteModel(m1);
@@ -369,6 +461,51 @@ int main() {
         printf("%s skip stage=compile0 msg=%s\n", id, oneline(mjs_getError(s0)).c_str());
       } else {
         roundtrip(id, s0, m0, nullptr);
+        mj_deleteModel(m0);
+      }
+      mj_deleteSpec(s0);
+    } else if (!strcmp(op, "inert")) {
+      dirty_heap();
+      int off2 = 0;
+      sscanf(line + off, "%255s %n", id, &off2);
+      std::string text;
+      char err[2000] = "";
+      if (!hexdec(line + off + off2, &text)) { printf("bad-op\n"); continue; }
+      mjSpec* s0 = mj_parseXMLString(text.c_str(), nullptr, err, sizeof err);
+      if (!s0) { printf("%s skip stage=parse0 msg=%s\n", id, oneline(err).c_str()); fflush(stdout); continue; }
+      mjModel* m0 = mj_compile(s0, nullptr);
+      if (!m0) {
+        printf("%s skip stage=compile0 msg=%s\n", id, oneline(mjs_getError(s0)).c_str());
+      } else {
+        std::string x1 = save(s0, err, sizeof err);
+        if (x1.empty()) {
+          printf("%s fail stage=save msg=%s xml=\n", id, oneline(err).c_str());
+        } else {
+          auto masses = [](const mjModel* m) {
+            std::string o;
+            for (int i = 1; i < m->nbody; i++) {
+              unsigned long long b;
+              double v = m->body_mass[i];
+              memcpy(&b, &v, 8);
+              char buf[400];
+              const char* nm = mj_id2name(m, mjOBJ_BODY, i);
+              snprintf(buf, sizeof buf, "%s%.300s:x%016llx", i > 1 ? "," : "", nm ? nm : "", b);
+              o += buf;
+            }
+            return o.empty() ? std::string("-") : o;
+          };
+          std::string a = masses(m0), b = "fail";
+          mjSpec* s1 = mj_parseXMLString(x1.c_str(), nullptr, err, sizeof err);
+          if (s1) {
+            mjModel* m1 = mj_compile(s1, nullptr);
+            if (m1) {
+              b = masses(m1);
+              mj_deleteModel(m1);
+            }
+            mj_deleteSpec(s1);
+          }
+          printf("%s saved xml=%s m0=%s m1=%s\n", id, hexenc(x1).c_str(), a.c_str(), b.c_str());
+        }
         mj_deleteModel(m0);
       }
       mj_deleteSpec(s0);
